@@ -103,3 +103,203 @@ def run(ctx):
         okk = okk and len(rets) == 1 and any(k.arg == "samples" and src(k.value) == src(keep[0].ast.targets[0]) for k in rets[0].value.keywords) \
             and any(k.arg == "pos" and src(k.value) == sat.params()[1] for k in rets[0].value.keywords)
     ctx.check("R19.2", f"{sat.key}::without old_pos the stored residuals are kept and only the position changes", okk, None, sat)
+
+
+OKL = "nifty.re.optimize_kl"
+
+
+def r19_3(ctx, m):
+    """JAX side: the KL value/gradient/metric are means over the sample axis of the standard Hamiltonian at pos + residual"""
+    from ..terms import canon
+    ctx.rule("R19.3", "nifty.re: _StandardHamiltonian is likelihood + 1/2 <x,x> with metric likelihood.metric + tangents; _kl_vg maps "
+                      "jax.value_and_grad(ham) and _kl_met maps ham.metric (tangents unmapped) over primals_samples.at(primals).samples "
+                      "= pos + residual along axis 0, and both return reduce(...) whose default is the mean over axis 0 of every leaf; "
+                      "without samples they evaluate at the expansion point", floor=8)
+    mod = m.module(OKL)
+    H = m.cls(OKL, "_StandardHamiltonian")
+    ctx.saw_class(H)
+    en, me = H.methods.get("energy"), H.methods.get("metric")
+    for fi in (en, me):
+        if fi is None:
+            ctx.error("R19.3: _StandardHamiltonian.energy/metric missing")
+            return
+        ctx.saw_func(fi)
+    pr = en.params()[1]
+    rets = [r for r in walk_no_nested(en.node) if isinstance(r, ast.Return)]
+    want = {canon(ast.parse(f"self.likelihood({pr}, **primals_kw) + 0.5 * vdot({pr}, {pr})", mode="eval").body, add=True),
+            canon(ast.parse(f"self.likelihood({pr}, **primals_kw) + vdot({pr}, {pr}) / 2", mode="eval").body, add=True)}
+    ctx.check("R19.3", f"{en.key}::likelihood energy + 1/2 <x, x>", len(rets) == 1 and canon(rets[0].value, add=True) in want,
+              src(rets[0].value) if rets else None, en)
+    pr, tg = me.params()[1:3]
+    rets = [r for r in walk_no_nested(me.node) if isinstance(r, ast.Return)]
+    want = canon(ast.parse(f"self.likelihood.metric({pr}, {tg}, **primals_kw) + {tg}", mode="eval").body, add=True)
+    ctx.check("R19.3", f"{me.key}::likelihood metric + identity", len(rets) == 1 and canon(rets[0].value, add=True) == want,
+              src(rets[0].value) if rets else None, me)
+    # default reduce
+    red = [st for st in mod.tree.body if isinstance(st, ast.Assign) and src(st.targets[0]) == "_reduce"]
+    import re as _re
+    mt = _re.fullmatch(r"partial\(tree_map,partial\(jnp\.(\w+),axis=(-?\d+)\)\)", src(red[0].value).replace(" ", "")) if len(red) == 1 else None
+    okr = bool(mt) and mt.group(1) == "mean" and mt.group(2) == "0"
+    ctx.check("R19.3", f"{mod.relpath}::_reduce is the mean over axis 0 of every leaf", True if okr else (False if (mt or not red) else None),
+              src(red[0].value) if red else "no module-level _reduce", mod.relpath, red[0] if red else None)
+    for fname in ("_kl_vg", "_kl_met"):
+        fi = m.func(OKL, fname)
+        ctx.saw_func(fi)
+        params = fi.params()
+        lh, pos = params[0], params[1]
+        smp = "primals_samples"
+        hams = [st for st in walk_no_nested(fi.node) if isinstance(st, ast.Assign) and isinstance(st.value, ast.Call)
+                and src(st.value.func) == "_StandardHamiltonian" and isinstance(st.targets[0], ast.Name)]
+        ctx.check("R19.3", f"{fi.key}::the mapped energy is _StandardHamiltonian({lh})", len(hams) == 1 and src(hams[0].value) == f"_StandardHamiltonian({lh})",
+                  src(hams[0].value) if hams else None, fi)
+        if len(hams) != 1:
+            continue
+        ham = hams[0].targets[0].id
+        mapped_ok = (lambda t: t == f"jax.value_and_grad({ham})") if fname == "_kl_vg" else (lambda t: t == f"{ham}.metric")
+        # default of reduce
+        kwd = dict(zip([a.arg for a in fi.node.args.kwonlyargs], fi.node.args.kw_defaults))
+        ctx.check("R19.3", f"{fi.key}::reduce defaults to _reduce", kwd.get("reduce") is not None and src(kwd["reduce"]) == "_reduce",
+                  src(kwd["reduce"]) if kwd.get("reduce") is not None else None, fi)
+        # mapped function
+        maps = [st for st in walk_no_nested(fi.node) if isinstance(st, ast.Assign) and isinstance(st.value, ast.Call) and src(st.value.func) == "map"]
+        key = f"{fi.key}::the mapped function"
+        if len(maps) != 1:
+            ctx.und("R19.3", key, f"{len(maps)} map(...) bindings", fi)
+            continue
+        mc = maps[0].value
+        mname = src(maps[0].targets[0])
+        ok = len(mc.args) == 1 and mapped_ok(src(mc.args[0]))
+        if fname == "_kl_met":
+            ia = [k for k in mc.keywords if k.arg == "in_axes"]
+            ok = ok and len(ia) == 1 and src(ia[0].value) == "(0, None)"
+        else:
+            ok = ok and not mc.keywords
+        ctx.check("R19.3", key, ok, src(mc), fi, maps[0])
+        # application to pos + residual and reduction
+        rets = sorted((r for r in walk_no_nested(fi.node) if isinstance(r, ast.Return)), key=lambda r: r.lineno)
+        app = [st for st in walk_no_nested(fi.node) if isinstance(st, ast.Assign) and isinstance(st.value, ast.Call) and src(st.value.func) == mname]
+        key = f"{fi.key}::applied to {smp}.at({pos}).samples and reduced"
+        if len(app) != 1:
+            ctx.und("R19.3", key, f"{len(app)} applications of {mname}", fi)
+            continue
+        a = [src(x) for x in app[0].value.args]
+        wanta = [f"{smp}.at({pos}).samples"] + ([params[2]] if fname == "_kl_met" else [])
+        sname = src(app[0].targets[0])
+        last = rets[-1] if rets else None
+        ctx.check("R19.3", key, a == wanta and last is not None and src(last.value) == f"reduce({sname})",
+                  f"{src(app[0])}; {src(last) if last is not None else None}", fi, app[0])
+        # no samples
+        key = f"{fi.key}::without samples: evaluated at the expansion point"
+        early = [r for r in rets[:-1]]
+        if len(early) != 1:
+            ctx.und("R19.3", key, f"{len(early)} early returns", fi)
+            continue
+        s_ = src(early[0].value)
+        guard = [i for i in walk_no_nested(fi.node) if isinstance(i, ast.If) and early[0] in i.body]
+        gok = len(guard) == 1 and src(guard[0].test).replace(" ", "") in (f"len({smp})==0", f"notlen({smp})", f"0==len({smp})")
+        ok = (s_ == f"jax.value_and_grad({ham})({pos})") if fname == "_kl_vg" else (s_ == f"{ham}.metric({pos}, {params[2]})")
+        ctx.check("R19.3", key, False if not ok else (True if gok else None), f"{s_} under `{src(guard[0].test) if guard else None}`", fi, early[0])
+    # Samples.samples = pos + residual
+    S = m.cls(EVI, "Samples")
+    sp = S.methods.get("samples")
+    if sp is None:
+        ctx.und("R19.3", f"{S.key}::samples", "property missing", S)
+    else:
+        ctx.saw_func(sp)
+        lam = [l_ for l_ in ast.walk(sp.node) if isinstance(l_, ast.Lambda)]
+        ok = None
+        if len(lam) == 1 and len(lam[0].args.args) == 2:
+            p_, s_ = [a.arg for a in lam[0].args.args]
+            body = canon(lam[0].body, add=True)
+            ok = body in {canon(ast.parse(t, mode="eval").body, add=True) for t in (f"{p_}[jnp.newaxis] + {s_}", f"{p_}[None] + {s_}", f"{p_} + {s_}")}
+            call = [c for c in ast.walk(sp.node) if isinstance(c, ast.Call) and lam[0] in c.args]
+            res_names = {"self._samples"} | {src(st.targets[0]) for st in ast.walk(sp.node) if isinstance(st, ast.Assign) and src(st.value) == "self._samples"}
+            ok = ok and len(call) == 1 and len(call[0].args) == 3 and src(call[0].args[1]) in ("self.pos", "self._pos") and src(call[0].args[2]) in res_names
+        ctx.check("R19.3", f"{sp.key}::samples = expansion point (broadcast over the sample axis) + residuals", ok, src(lam[0]) if lam else None, sp)
+
+
+def r19_4(ctx, m):
+    """constants in the JAX KL minimisation: typed insert/remove table"""
+    ctx.rule("R19.4", "OptimizeVI.kl_minimize with constants: the optimised position is the liquid part returned by "
+                      "_parse_point_estimates(constants, samples.pos); value_and_grad gets the frozen primals inserted in its one "
+                      "position slot and the gradient (not the value) stripped of the frozen axes; the metric gets (frozen primals, "
+                      "zeros_like(frozen)) inserted in (position, tangent) and its output stripped; the result's x is completed with "
+                      "the frozen primals - so constant keys are never optimised and come back unchanged", floor=5)
+    O = m.cls(OKL, "OptimizeVI")
+    fi = O.methods.get("kl_minimize")
+    if fi is None:
+        ctx.error("R19.4: OptimizeVI.kl_minimize missing")
+        return
+    ctx.saw_func(fi)
+    stmts = list(walk_no_nested(fi.node))
+    parse = [st for st in stmts if isinstance(st, ast.Assign) and isinstance(st.value, ast.Call) and call_name(st.value) == "_parse_point_estimates"]
+    key = f"{fi.key}::insert_axes, liquid position, frozen primals = _parse_point_estimates(constants, samples.pos)"
+    if len(parse) != 1 or not isinstance(parse[0].targets[0], ast.Tuple) or len(parse[0].targets[0].elts) != 3:
+        ctx.und("R19.4", key, "parse statement not found", fi)
+        return
+    ax, pl, frozen = [src(e) for e in parse[0].targets[0].elts]
+    a = [src(x) for x in parse[0].value.args]
+    pos0 = [st for st in stmts if isinstance(st, ast.Assign) and src(st.targets[0]) == pl and st is not parse[0]]
+    ctx.check("R19.4", key, a == ["constants", pl] and len(pos0) == 1 and src(pos0[0].value) == "samples.pos", src(parse[0]), fi, parse[0])
+
+    def kw(c):
+        return {k.arg: src(k.value).replace(" ", "") for k in c.keywords}
+    pirs = [st for st in stmts if isinstance(st, ast.Assign) and isinstance(st.value, ast.Call) and call_name(st.value) == "partial_insert_and_remove"]
+    parts = {}
+    for st in stmts:
+        if isinstance(st, ast.Assign) and isinstance(st.value, ast.Call) and src(st.value.func) in ("Partial", "partial") and st.value.args:
+            parts[src(st.value.args[0])] = src(st.targets[0])
+    fgn, hpn = parts.get("self.kl_value_and_grad"), parts.get("self.kl_metric")
+    pir = {}
+    for st in pirs:
+        t, a0 = src(st.targets[0]), st.value.args[0] if st.value.args else None
+        if a0 is not None and src(a0) == t == fgn:
+            pir["fun_and_grad"] = st.value
+        elif a0 is not None and src(a0) == t == hpn:
+            pir["hessp"] = st.value
+        elif isinstance(a0, ast.Lambda) and len(a0.args.args) == 1 and src(a0.body) == a0.args.args[0].arg:
+            pir["insert"] = st.value
+            insn = t
+    fg = pir.get("fun_and_grad")
+    key = f"{fi.key}::value_and_grad: insert ({frozen},) at ({ax},); remove (False, {ax})"
+    if fg is None:
+        ctx.und("R19.4", key, "wrapper not found", fi)
+    else:
+        k = kw(fg)
+        ctx.check("R19.4", key, k.get("insert_axes") == f"({ax},)" and k.get("flat_fill") == f"({frozen},)"
+                  and k.get("remove_axes") == f"(False,{ax})", str(k), fi, fg)
+    hp = pir.get("hessp")
+    key = f"{fi.key}::metric: insert ({frozen}, zeros_like({frozen})) at ({ax}, {ax}); remove {ax}"
+    if hp is None:
+        ctx.und("R19.4", key, "wrapper not found", fi)
+    else:
+        k = kw(hp)
+        ctx.check("R19.4", key, k.get("insert_axes") == f"({ax},{ax})"
+                  and k.get("flat_fill") == f"({frozen},zeros_like({frozen}))" and k.get("remove_axes") == ax, str(k), fi, hp)
+    mins = [c for c in stmts if isinstance(c, ast.Call) and src(c.func) == "minimize"]
+    key = f"{fi.key}::the minimiser starts from the liquid position with the wrapped functions"
+    if len(mins) != 1:
+        ctx.und("R19.4", key, f"{len(mins)} minimize calls", fi)
+    else:
+        k = kw(mins[0])
+        ctx.check("R19.4", key, k.get("x0") == pl and k.get("fun_and_grad") == fgn and k.get("hessp") == hpn, str(k), fi, mins[0])
+    ins = pir.get("insert")
+    rep = [c for c in stmts if isinstance(c, ast.Call) and call_name(c) == "_replace"]
+    key = f"{fi.key}::the result's position is completed with the frozen primals"
+    if ins is None or len(rep) != 1:
+        ctx.und("R19.4", key, "re-insertion not found", fi)
+    else:
+        k = kw(ins)
+        kr = kw(rep[0])
+        recv = src(rep[0].func.value)
+        ctx.check("R19.4", key, k.get("insert_axes") == f"({ax},)" and k.get("flat_fill") == f"({frozen},)" and k.get("remove_axes") in ("None", "()")
+                  and kr.get("x") == f"{insn}({recv}.x)", f"{k}; {kr}", fi, rep[0])
+
+
+_run_c19 = run
+
+
+def run(ctx):  # noqa: F811
+    _run_c19(ctx)
+    r19_3(ctx, ctx.model)
+    r19_4(ctx, ctx.model)
